@@ -13,6 +13,8 @@ LATE = {
  'C08-c': 'no clone instance used an element type without drop glue (drop_fn == None)',
  'C03-d': 'the zero-sized instance of the bounded destructor-loop harness was thorough-tier only',
  'C05-c': 'the clone harness only built targets with capacity 0 or the source capacity',
+ 'C11-f': 'the obligation "length untouched when a fixed-capacity backend refuses to grow" was added for this round, but the runner accepted ANY failure located in the refusing function as the expected panic and so hid it: the runner now never treats a contract assertion of the harness module as an expected failure',
+ 'C18-f': 'state at a library panic was not observable (Kani has no unwinding): core\'s unwrap/expect panic entry points are now replaced by observing twins that assert the HeapMem still describes the allocation it owns',
  'C01-c': 'the copy_bytes contract harness had no unwind bound, so a new loop without invariant made it run into the time limit (exit 2) instead of failing; it now has one, and a real-memory insert harness on 1-byte elements (k3_insert_u8) was added',
 }
 rows = []
@@ -44,11 +46,11 @@ txt = '''
 
 Fresh sub-agents were each given only the text of one property and a scratch worktree of /repo (nothing from
 /verif) and asked for two changes that break the property, still compile and pass the 44 tests, and need
-something specific to manifest. Round 1: 18 agents (one per claimed property); round 2: 10 agents for the
-properties with the largest operation space, told only which *functions* round 1 had already used. All %d changes
+something specific to manifest. Round 1: 18 agents (one per claimed property); rounds 2 and 3: 10 + 6 agents, told only which
+*functions* earlier rounds had already used. All %d changes
 were confirmed by me in the scratch worktree (`tools/seed_eval.sh`: suite green with the patch, demo fails with /
 passes without) and are kept under `/verif/seeded/<id>/` (`patch.diff`, `demo.rs`, `notes.md`, `meta.json`; ids
-`-a/-b` round 1, `-c/-d` round 2). `seeded/harmless-1` is the opposite: a behaviour-preserving refactor that must
+`-a/-b` round 1, `-c/-d` round 2, `-e/-f` round 3). `seeded/harmless-1` is the opposite: a behaviour-preserving refactor that must
 NOT be reported.
 
 Every seeded change is reported as a VIOLATION by the **quick** check of its property. Honest accounting: %d of
